@@ -1,0 +1,18 @@
+//go:build verif
+
+package filesystem
+
+import "github.com/wokdav/gopki/generator/db"
+
+// Verification hooks (build tag verif only).
+
+func VerifImportPem(content []byte) db.BuildArtifact {
+	return (&FsDb{}).importPem(content)
+}
+
+func VerifArtifactFileName(configFileName string) string {
+	return fsMetadata{configFileName: configFileName}.artifactFileName()
+}
+
+const VerifHashPrefix = hashPrefix
+const VerifWritePermissions = writePermissions
